@@ -228,7 +228,7 @@ func (x *Exec) execAlloc(p *Path, v *ssa.Alloc) SV {
 	case SVal:
 		x.store1(p, "CVal", c, "VNil")
 	case SF64:
-		x.store1(p, "CF64", c, "(fconst 0)")
+		x.store1(p, "CF64", c, "(i2f 0)")
 	default:
 		if _, isMap := et.Underlying().(*types.Map); isMap {
 			x.store1(p, "CInt", c, "0")
@@ -299,6 +299,16 @@ func (x *Exec) execUnOp(p *Path, v *ssa.UnOp) bool {
 			return false
 		}
 		sv := x.load(p, a.Loc)
+		if a.Loc.Kind == "lfield" && a.Loc.Field == "val" && x.isDeadTemp(v.X) {
+			// storage of a non-escaping temporary list is adopted: the temporary is dead from here on
+			// ghost: the unreachable temporary gives up its spine (it becomes an empty list with a spine of its own)
+			g := x.alloc(p, "KARR", 1)
+			x.updMulti(p, map[string]string{
+				"Larr": fmt.Sprintf("(store (Larr %s) %s %s)", p.H, a.Loc.Ref, g),
+				"Llen": fmt.Sprintf("(store (Llen %s) %s 0)", p.H, a.Loc.Ref),
+				"Lcap": fmt.Sprintf("(store (Lcap %s) %s 0)", p.H, a.Loc.Ref)})
+			x.assumptions["a freshly returned list whose only use is reading .val is unreachable afterwards (SSA def-use check)"] = true
+		}
 		if sv.K == KTerm {
 			sv = x.define(p, "ld", sv)
 			if inv := typeInv(v.Type(), sv.T); inv != "" && sv.S == SVal {
@@ -387,7 +397,11 @@ func (x *Exec) execBinOp(p *Path, v *ssa.BinOp) SV {
 			op := map[token.Token]string{token.ADD: "+", token.SUB: "-", token.MUL: "*"}[v.Op]
 			t := fmt.Sprintf("(%s %s %s)", op, a.T, b.T)
 			if x.cur.ct.Flags["wraps"] {
-				t = "(wrap64 " + t + ")"
+				if v.Op == token.MUL {
+					t = fmt.Sprintf("(wmul %s %s)", a.T, b.T)
+				} else {
+					t = "(wrap64 " + t + ")"
+				}
 			} else {
 				lo, hi, _ := intRange(xt)
 				if lo == "" {
@@ -723,4 +737,55 @@ func (x *Exec) execNext(p *Path, v *ssa.Next) bool {
 func (x *Exec) execGo(p *Path, v *ssa.Go, work *[]*Path) bool {
 	x.errorf("%s: go statement not supported by the WP engine (see tokens checker)", x.cur.ct.Func)
 	return false
+}
+
+// isDeadTemp: addr is &t.val where t = <call>.(*list) and neither the call result nor the asserted
+// pointer has any other use than this field read.
+func (x *Exec) isDeadTemp(addr ssa.Value) bool {
+	fa, ok := addr.(*ssa.FieldAddr)
+	if !ok {
+		return false
+	}
+	ta, ok := fa.X.(*ssa.TypeAssert)
+	if !ok || ta.CommaOk {
+		return false
+	}
+	call, ok := ta.X.(*ssa.Call)
+	if !ok {
+		return false
+	}
+	callee := call.Common().StaticCallee()
+	if callee == nil || (callee.Name() != "NewListFrom" && callee.Name() != "NewList") {
+		return false
+	}
+	onlyUse := func(v ssa.Value, user ssa.Instruction) bool {
+		refs := v.Referrers()
+		if refs == nil {
+			return false
+		}
+		n := 0
+		for _, r := range *refs {
+			if _, dbg := r.(*ssa.DebugRef); dbg {
+				continue
+			}
+			if r != user {
+				return false
+			}
+			n++
+		}
+		return n == 1
+	}
+	if !onlyUse(call, ta) || !onlyUse(ta, fa) {
+		return false
+	}
+	refs := fa.Referrers()
+	for _, r := range *refs {
+		if _, dbg := r.(*ssa.DebugRef); dbg {
+			continue
+		}
+		if u, ok := r.(*ssa.UnOp); !ok || u.Op != token.MUL {
+			return false
+		}
+	}
+	return true
 }
